@@ -338,6 +338,20 @@ Definition finally_restore sc (D : list nat) (label_map : nat -> string) (pairs 
   let sc3 := reconnect_all sc2 pairs in
   match par sc3 with PNone => sc3 | _ => set_starting sc3 saved_starting end.
 
+(* the body of the `try:` once the linear wiring is in place ([first] = the only starter) *)
+Definition run_upstream (fuel lv : nat) sc3 (k first : nat) (up : upper) : scope * upper * list entry * res :=
+  if Nat.eqb first k then (sc3, up, [], Ok)          (* nothing upstream *)
+  else
+    let sc3' := fst (disconnect_run sc3 k) in         (* self.signals.disconnect_run() *)
+    match par sc3' with
+    | PNone => let '(a, b, c) := run_dfs fuel lv sc3' first in (a, up, b, c)
+    | PWf =>
+      let old := automate sc3' in
+      let '(a, u, b, c) := run_parent fuel lv (set_starting (set_automate sc3' false) [first]) up in
+      (match c with Ok => set_automate a old | Err _ => a end, u, b, c)
+    | PMacro => run_parent fuel lv (set_starting sc3' [first]) up
+    end.
+
 Definition level_pull (fuel lv : nat) sc (k : nat) (up : upper) : scope * upper * list entry * res :=
   match closure fuel (ups sc) k with
   | None => (sc, up, [], Err ECyclic)
@@ -352,20 +366,8 @@ Definition level_pull (fuel lv : nat) sc (k : nat) (up : upper) : scope * upper 
         (restore_labels (reconnect_all sc2 pairs) D label_map, up, [], Err ECyclic)
       | Some order =>
         let sc3 := chain sc2 order in
-        let first := hd k order in
         let saved := starting sc3 in
-        let '(sc4, up4, l4, x4) :=
-            if Nat.eqb first k then (sc3, up, [], Ok)
-            else
-              let sc3' := fst (disconnect_run sc3 k) in
-              match par sc3' with
-              | PNone => let '(a, b, c) := run_dfs fuel lv sc3' first in (a, up, b, c)
-              | PWf =>
-                let old := automate sc3' in
-                let '(a, u, b, c) := run_parent fuel lv (set_starting (set_automate sc3' false) [first]) up in
-                (match c with Ok => set_automate a old | Err _ => a end, u, b, c)
-              | PMacro => run_parent fuel lv (set_starting sc3' [first]) up
-              end in
+        let '(sc4, up4, l4, x4) := run_upstream fuel lv sc3 k (hd k order) up in
         (finally_restore sc4 D label_map pairs saved, up4, l4, x4)
       end
   end.
